@@ -212,6 +212,12 @@ def main():
     for coq, cname in (("kInstrumentNamePattern", "kInstrumentNamePattern"), ("kInstrumentUnitPattern", "kInstrumentUnitPattern")):
         m = find(V, r"%s\s*=\s*((?:\"(?:[^\"\\]|\\.)*\"\s*)+);" % cname, cname)
         emit(coq_regex(coq, parse_regex(join_literals(m.group(1)))))
+    # the limits of the hand-written (non-regex) validator variant, in source order: ValidateName, ValidateUnit (C19)
+    lims = re.findall(r"const\s+size_t\s+kMaxSize\s*=\s*(\d+)\s*;", src(V))
+    if len(lims) != 2:
+        raise Missing("the two kMaxSize limits of the non-regex validators in " + V)
+    emit("Definition kNrNameMaxSize : nat := %d.   (* %s *)" % (int(lims[0]), V))
+    emit("Definition kNrUnitMaxSize : nat := %d.   (* %s *)" % (int(lims[1]), V))
     # the name a disabled SDK Logger answers with (api NoopLogger::GetName), used by the LoggerProvider registry lookup (C19)
     m = find("api/include/opentelemetry/logs/noop.h",
              r"class\s+NoopLogger\b.*?GetName\(\)\s*noexcept\s*override\s*\{\s*return\s*(\"(?:[^\"\\]|\\.)*\")\s*;", "NoopLogger::GetName literal")
